@@ -1105,6 +1105,19 @@ func ruleFetchContainers(r *Run) {
 		good = false
 		o.Fail(r.pos(matchC.Pos()), "a container is kept on a path where Match is not known to be true")
 	}
+	// ... and for no other reason: the only condition inside the loop that the kept container depends on
+	// is the verdict of Match (a listed container is not skipped because of its state, age, ...)
+	for _, f := range factsAt(appendBlk) {
+		in, ok := f.Cond.(ssa.Instruction)
+		if !ok || !loop.Blocks[in.Block()] || f.Cond == ssa.Value(matchC) {
+			continue
+		}
+		if in.Block() == loop.Header {
+			continue // the loop's own bound
+		}
+		good = false
+		o.Fail(r.pos(f.Cond.Pos()), "a listed container is kept only if %s: containers are skipped for a reason other than their labels", describe(f.Cond, 0))
+	}
 	// the kept container carries ID of the ranged container and the matched label set
 	if good {
 		o.OK("ContainerList(All) -> for each: getLabels(ctr).Match(params.Labels) true -> kept").At(r.pos(fn.Pos()))
